@@ -236,3 +236,16 @@ impl Handler<NamingControl> for NamingActor {
         }
     }
 }
+
+/// cluster liveness: let the given nodes time out now (runs the real `check_node_status`)
+#[derive(Message)]
+#[rtype(result = "()")]
+pub struct ExpireNodes(pub Vec<u64>);
+
+impl Handler<ExpireNodes> for crate::naming::cluster::node_manage::InnerNodeManage {
+    type Result = ();
+
+    fn handle(&mut self, msg: ExpireNodes, _ctx: &mut Self::Context) -> Self::Result {
+        self.verif_expire_nodes(&msg.0);
+    }
+}
